@@ -133,7 +133,10 @@ def configs(tier, seed):
                 allp = [(a, b) for a in itertools.product(range(1, 5), repeat=2)
                         for b in itertools.product(range(1, 5), repeat=2)]
                 pairs2 = pairs2 + rnd.sample(allp, 40)
-                for p3 in [((2, 2, 2), (3, 1, 4)), ((2, 3, 2), (4, 4, 3))]:
+            for p3 in ([((2, 3, 2), (2, 5, 4)), ((3, 2, 2), (2, 4, 3))] if tier == 'quick' else
+                       [((2, 3, 2), (2, 5, 4)), ((3, 2, 2), (2, 4, 3)), ((2, 2, 2), (3, 1, 4)), ((2, 3, 2), (4, 4, 3)),
+                        ((2, 3, 4), (2, 5, 6))]):
+                if True:
                     out.append(('ra/%s/%s/%s->%s' % (mode, direction, 'x'.join(map(str, p3[0])),
                                                      'x'.join(map(str, p3[1]))),
                                 dict(kind='ra', mode=mode, direction=direction, old=list(p3[0]), new=list(p3[1]),
@@ -148,7 +151,11 @@ def configs(tier, seed):
                                                        dtype='complex128')))
         out.append(('ra/%s/axes+out' % mode, dict(kind='ra-out', mode=mode, direction='forward', old=[3, 2],
                                                     new=[5, 3])))
-        for shp, newshp in ([((3,), (5,)), ((4,), (2,)), ((2, 3), (4, 4))] if tier == 'quick' else
+        out.append(('ra/%s/adjoint+out' % mode, dict(kind='ra-out', mode=mode, direction='adjoint', old=[5, 3],
+                                                       new=[3, 2])))
+        out.append(('ra/%s/adjoint+out/1d' % mode, dict(kind='ra-out', mode=mode, direction='adjoint', old=[5],
+                                                          new=[3])))
+        for shp, newshp in ([((3,), (5,)), ((4,), (2,)), ((2, 3), (4, 4)), ((3,), (6,))] if tier == 'quick' else
                             [((3,), (5,)), ((4,), (2,)), ((2, 3), (4, 4)), ((3, 3), (2, 5)), ((2,), (6,))]):
             out.append(('op/%s/%s->%s' % (mode, 'x'.join(map(str, shp)), 'x'.join(map(str, newshp))),
                         dict(kind='op', mode=mode, direction='forward', old=list(shp), new=list(newshp))))
@@ -214,6 +221,7 @@ def case(ctx, kind, mode, direction, old, new, dtype='float64', max_offsets=None
                                             out=out)
                 ctx.fact('returns-out/' + tag, ret is out)
                 ctx.eq('rule-out/' + tag, out, ref)
+                ctx.eq('input-unchanged-out/' + tag, a, pre)
             # crop after extend (same offset) is the identity
             if direction == 'forward' and all(m >= n for n, m in zip(old, new)) and kind == 'ra':
                 back = numerics.resize_array(res, old, offset=off)
@@ -228,6 +236,23 @@ def case(ctx, kind, mode, direction, old, new, dtype='float64', max_offsets=None
         ok = all(not (m > n) or legal(n, m, o, mode) for n, m, o in zip(old, new, off))
         c = ctx.real('c%d' % oi) if mode == 'constant' else 0
         op = odl.ResizingOperator(space, ran_shp=new, offset=off, pad_mode=mode, pad_const=c)
+        for nob in (True, (True, False), (False, True)):
+            opb = odl.ResizingOperator(space, ran_shp=new, offset=off, pad_mode=mode,
+                                       discr_kwargs={'nodes_on_bdry': nob})
+            okb = np.allclose(opb.range.cell_sides, space.cell_sides)
+            for i, (n, m) in enumerate(zip(old, new)):
+                if m >= n:
+                    okb = okb and np.allclose(opb.range.grid.coord_vectors[i][off[i]:off[i] + n],
+                                              space.grid.coord_vectors[i])
+            ctx.fact('range-grid-contains-domain-grid/nodes_on_bdry=%s/%s' % (nob, tag), okb,
+                     'range grid %s vs domain grid %s at offset %s' % (opb.range.grid.coord_vectors,
+                                                                      space.grid.coord_vectors, off))
+        okg = True
+        for i, (n, m) in enumerate(zip(old, new)):
+            if m >= n:
+                okg = okg and np.allclose(op.range.grid.coord_vectors[i][off[i]:off[i] + n],
+                                          space.grid.coord_vectors[i])
+        ctx.fact('range-grid-contains-domain-grid/' + tag, okg)
         # range geometry (concrete facts): unchanged cell sides, covers the shifted physical domain
         ctx.fact('cell-sides/' + tag, np.allclose(op.range.cell_sides, space.cell_sides))
         # the property speaks of the *enlarged* domain: asserted on axes that grow (or keep their size)
@@ -254,7 +279,13 @@ def case(ctx, kind, mode, direction, old, new, dtype='float64', max_offsets=None
         ctx.eq('op-rule-inplace/' + tag, y, ref)
         lin = odl.ResizingOperator(space, ran_shp=new, offset=off, pad_mode=mode)
         yy = ctx.element(lin.range, 'y%d' % oi)
+        py = ctx.snapshot(yy)
         ctx.eq('adjoint-identity/' + tag, lin(x).inner(yy), x.inner(lin.adjoint(yy)))
+        ctx.eq('adjoint-input-unchanged/' + tag, yy, py)
+        ctx.eq('input-unchanged/' + tag, x, pre)
+        # adjoint = transpose of the forward rule, scaled by the weighting ratio (cell volumes are equal here)
+        ctx.eq('adjoint-rule/' + tag, lin.adjoint(yy), reference(py.reshape(new), old, off, mode, 0, 'adjoint'))
+        ctx.eq('adjoint-input-unchanged-2/' + tag, yy, py)
         ctx.fact('adjoint-spaces/' + tag, lin.adjoint.domain == lin.range and lin.adjoint.range == lin.domain)
         if all(m >= n for n, m in zip(old, new)):
             ctx.eq('inverse-after-extend/' + tag, lin.inverse(lin(x)), pre)
